@@ -183,7 +183,12 @@ int init_http_connection2(struct http_connection *connection, const struct http_
 	br->writev = reader->writev;
 	br->set_error_handler = reader->set_error_handler;
 
-	return br->read_until(br->this_ptr, CRLF, read_start_line, connection);
+	int ret = br->read_until(br->this_ptr, CRLF, read_start_line, connection);
+	if (unlikely(ret < 0)) {
+		/* the reader could not be started: the caller releases the connection, so it must not stay in the list */
+		list_del(&connection->connection_list);
+	}
+	return ret;
 }
 
 int init_http_connection(struct http_connection *connection, const struct http_server *server, struct buffered_reader *reader, bool is_local_connection)
